@@ -257,19 +257,35 @@ Proof.
     + apply F2; [exact Hc|]. destruct G1 as [L _]. now rewrite L.
 Qed.
 
+(* the last step: max >= min in every column, nothing else changes, nothing shrinks *)
+Lemma order_min_max_mins st : mins (order_min_max st) = mins st.
+Proof. unfold mins, order_min_max. rewrite map_map. reflexivity. Qed.
+Lemma order_min_max_grows st : grows st (order_min_max st).
+Proof.
+  split; [unfold order_min_max; apply map_length|]. split.
+  - rewrite order_min_max_mins. apply Forall2_le_refl.
+  - unfold maxs, order_min_max. rewrite map_map. induction st as [|p st IH]; simpl; constructor; [apply Q.le_max_l|exact IH].
+Qed.
+Lemma order_min_max_ordered st : Forall (fun p => p_min p <= p_max p) (order_min_max st).
+Proof. unfold order_min_max. induction st as [|p st IH]; simpl; constructor; [simpl; apply Q.le_max_r|exact IH]. Qed.
+
 (* the whole column part *)
 Theorem preferred_columns_correct h columns cells :
   exists st, preferred_columns h columns cells = Some st /\
     length st = length columns /\
+    Forall (fun p => p_min p <= p_max p) st /\
     forall c, In c cells -> inside c (length columns) -> fits_min h st c /\ fits_max h st c.
 Proof.
   unfold preferred_columns.
-  destruct (colspan_loop_never_raises h cells (clamp_pcts 0 (map base_col columns))) as [st H].
-  exists st. split; [exact H|]. destruct (colspan_cells_fit _ _ _ _ H) as [[L _] F].
+  destruct (colspan_loop_never_raises h cells (clamp_pcts 0 (map base_col columns))) as [st H]. rewrite H.
+  exists (order_min_max st). split; [reflexivity|]. destruct (colspan_cells_fit _ _ _ _ H) as [[L _] F].
   assert (L0 : forall l q, length (clamp_pcts q l) = length l)
     by (induction l as [|p l IHl]; intros q; simpl; [reflexivity|now rewrite IHl]).
-  rewrite L0, map_length in L. split; [exact L|].
-  intros c Hc Hin. apply F; [exact Hc|]. now rewrite L0, map_length.
+  rewrite L0, map_length in L. split; [unfold order_min_max; rewrite map_length; exact L|].
+  split; [apply order_min_max_ordered|].
+  intros c Hc Hin. destruct (F c Hc) as [Fm Fx]; [now rewrite L0, map_length|].
+  pose proof (order_min_max_grows st) as G.
+  split; [eapply fits_min_mono; eassumption|eapply fits_max_mono; eassumption].
 Qed.
 
 (* with the VERTICAL spacing in place of the horizontal one the statement is false: two-value border-spacing
